@@ -75,9 +75,9 @@ LEVEL = {
     'C12': {'text': 'Theorems: the view/sum and view-raw responses decode to exactly the header and series/point lists the handler encoded; the empty body is the not-exist answer; '
                     'a text error body never decodes as a header. Request side: for every byte string used as a value (file names with + & % = ; # space, non-ASCII) the query the client builds with QueryEscape '
                     'parses back (ParseQuery, as ParseForm applies it) to exactly the pairs sent; the escaped form never contains a separator. '
-                    'Every read command is run against a real server and against the directory and both are compared with the model; the net/url model is compared with the real package. END TO END (Model/Server.v, Proofs/ServerProofs.v): the /view handler applied to the query the client builds for (file, archive, from, until, now) performs exactly the local read with these arguments, for every byte string as file name, every archive number and every 32-bit window and clock (C12_server_performs_the_local_read), so the client holds the local result, the not-exist answer or an error accordingly (C12_remote_view_is_local_view); the same for /sum (C12_server_performs_the_local_sum). The real handler is run on raw queries of every shape (clirawview) and the real client's request is captured and compared with the model's (cliquerycap).',
+                    'Every read command is run against a real server and against the directory and both are compared with the model; the net/url model is compared with the real package. END TO END (Model/Server.v, Proofs/ServerProofs.v): the /view handler applied to the query the client builds for (file, archive, from, until, now) performs exactly the local read with these arguments, for every byte string as file name, every archive number and every 32-bit window and clock (C12_server_performs_the_local_read), so the client holds the local result, the not-exist answer or an error accordingly (C12_remote_view_is_local_view); the same for /sum (C12_server_performs_the_local_sum). The real handler is run on raw queries of every shape (clirawview) and the request of the real client is captured and compared with that of the model (cliquerycap).',
             'design_ref': '5 C12',
-            'note': _TB + 'net/http is trusted to deliver the handler\'s bytes and headers; url.QueryEscape / ParseForm are exercised, not modelled.'},
+            'note': _TB + 'net/http is trusted to deliver the handler\'s bytes and headers; url.QueryEscape / ParseForm are modelled in Model/Query.v and compared with the real package.'},
     'C16': {'text': 'Theorems: copy-like commands never answer diff and answer not-exist only for a missing source; no success => existing destination untouched; comparison verdicts are ok/diff/err. '
                     'no panic is proved for fetch (every id, window, contents), view, view-raw, diff, sum and sum-diff on files whose archives are well-formed rings; for copy / sum-copy a panic can only '
                     'originate in the library batch update, and (C16_copy_never_panics) on every destination content a history of updates can produce it does not: copy / sum-copy end in success or an error. '
